@@ -162,13 +162,17 @@ def accessor(ctx, letters):
     xp = np.concatenate([x, np.full((pad, n), ND)])
     for dtype in ("int16", "float32", "float64"):
         da = xr.DataArray(xp.astype(dtype).reshape(side, side, n), dims=("y", "x", "time"), coords={"time": time}, attrs={"nodata": ND})
-        for i in range(n):
-            for j in range(i + 2, n + 1):
+        for i, j, between in [(i, j, b) for i in range(n) for j in range(i + 2, n + 1) for b in (False, True)]:
+            if True:
+                # the window is written with dates on the steps, and again with dates strictly between steps
+                # (begin 3 days before its first step, end 4 days after its last one: the axis has 10-day steps)
+                if between and i == 0 and j == n:
+                    continue
                 kw = {}
                 if i > 0:
-                    kw["calibration_begin"] = str(time[i].date())
+                    kw["calibration_begin"] = str((time[i] - pd.Timedelta(days=3 if between else 0)).date())
                 if j < n:
-                    kw["calibration_end"] = str(time[j - 1].date())
+                    kw["calibration_end"] = str((time[j - 1] + pd.Timedelta(days=4 if between else 0)).date())
                 res = da.hdc.algo.spi(**kw)
                 out = res.transpose("y", "x", "time").values.reshape(-1, n)
                 if res.dtype != np.int16:
@@ -179,7 +183,7 @@ def accessor(ctx, letters):
                 if a.get("spi_calibration_begin") != str(time[i]) or a.get("spi_calibration_end") != str(time[j - 1]):
                     ctx.violation(sub, {"what": "attrs", "window": [i, j]}, {"kind": "acc"},
                                   f"spi({kw}) attrs {a.get('spi_calibration_begin')} / {a.get('spi_calibration_end')}, expected {time[i]} / {time[j-1]}")
-    ctx.sample(sub, {"cube": f"all {N} words of length {n}", "dtypes": ["int16", "float32", "float64"], "windows": "all with >= 2 steps"})
+    ctx.sample(sub, {"cube": f"all {N} words of length {n}", "dtypes": ["int16", "float32", "float64"], "windows": "all with >= 2 steps, dates on the steps and strictly between steps"})
 
 
 def quantile_family(ctx):
